@@ -3,6 +3,7 @@ NEXT MNext
 CONSTANTS
   MaxStmts = 6
   MaxDepth = 3
+  Slice = "all"
   UseY = TRUE
   Cats = {"assign-v", "assign-x", "unpack", "aug", "expr", "return", "assert", "save", "mut", "loopjump", "raise",
           "if", "ifelse", "while", "whileelse", "for", "forelse", "try", "with", "match"}
